@@ -330,3 +330,43 @@ V("c07-preserving-beamsplitter-rewritten", "C07", "silent",
   (GATES, "        t = np.cos(theta)\n        r = np.exp(1j * phi) * np.sin(theta)\n", "        t = np.sin(theta + np.pi / 2)\n        r = np.sin(theta) * (np.cos(phi) + 1j * np.sin(phi))\n"))
 V("c07-preserving-squeezing-exp-form", "C07", "silent",
   (GATES, "        return np.array([[np.cosh(r)]], dtype=config.complex_dtype)", "        return np.array([[(np.exp(r) + np.exp(-r)) / 2]], dtype=config.complex_dtype)"))
+
+# ------------------------------------------------------------------------------------------- C19
+DR = "piquasso/dual_rail_encoding.py"
+V("c19-rx-phase-sign", "C19", {"rule": "C19b", "contains": "rx"},
+  (DR, "pq.Beamsplitter(theta / 2, -np.pi / 2).on_modes(mode1, mode2)", "pq.Beamsplitter(theta / 2, np.pi / 2).on_modes(mode1, mode2)"))
+V("c19-rz-global-phase", "C19", {"rule": "C19b", "contains": "rz"},
+  (DR, "    instructions.append(pq.Phaseshifter(-1 / 2 * theta).on_modes(mode1))\n    instructions.append(pq.Phaseshifter(1 / 2 * theta).on_modes(mode2))", "    instructions.append(pq.Phaseshifter(theta).on_modes(mode2))"))
+V("c19-hadamard-order", "C19", {"rule": "C19b", "contains": "|h"},
+  (DR, "    instructions.append(pq.Phaseshifter(np.pi).on_modes(mode2))\n    instructions.append(pq.Beamsplitter(np.pi / 4).on_modes(mode1, mode2))", "    instructions.append(pq.Beamsplitter(np.pi / 4).on_modes(mode1, mode2))\n    instructions.append(pq.Phaseshifter(np.pi).on_modes(mode2))"))
+V("c19-u3-lambda-phi-swapped", "C19", {"rule": "C19b", "contains": "|u"},
+  (DR, "    instructions.append(pq.Phaseshifter(lam).on_modes(mode2))\n    instructions.append(pq.Beamsplitter(theta / 2, 0).on_modes(mode1, mode2))\n    instructions.append(pq.Phaseshifter(phi).on_modes(mode2))",
+   "    instructions.append(pq.Phaseshifter(phi).on_modes(mode2))\n    instructions.append(pq.Beamsplitter(theta / 2, 0).on_modes(mode1, mode2))\n    instructions.append(pq.Phaseshifter(lam).on_modes(mode2))"))
+V("c19-p-on-wrong-rail", "C19", {"rule": "C19b", "contains": "|p"},
+  (DR, "_phase_gate_bosonic(qiskit_instruction.params[0], modes[1])", "_phase_gate_bosonic(qiskit_instruction.params[0], modes[0])"))
+V("c19-y-missing-phase", "C19", {"rule": "C19b", "contains": "|y"},
+  (DR, "    instructions.append(pq.Beamsplitter(-np.pi / 2, np.pi / 2).on_modes(mode1, mode2))\n    instructions.append(pq.Phaseshifter(np.pi).on_modes(mode2))", "    instructions.append(pq.Beamsplitter(-np.pi / 2, np.pi / 2).on_modes(mode1, mode2))"))
+V("c19-arm-removed", "C19", {"rule": "C19a", "contains": "arm-ry"},
+  (DR, "    elif instruction_name == \"ry\":\n        instructions.extend(\n            _ry_bosonic(qiskit_instruction.params[0], modes[0], modes[1])\n        )\n", ""))
+V("c19-preserving-x-rewritten", "C19", "silent",
+  (DR, "    instructions.append(pq.Phaseshifter(np.pi).on_modes(mode2))\n    instructions.append(pq.Beamsplitter(np.pi / 2).on_modes(mode1, mode2))", "    instructions.append(pq.Phaseshifter(-np.pi).on_modes(mode2))\n    instructions.append(pq.Beamsplitter(np.pi / 2, 0.0).on_modes(mode1, mode2))"))
+
+# ------------------------------------------------------------------------------------------- C15
+CL = "piquasso/decompositions/clements.py"
+V("c15-embedded-phase-on-other-column", "C15", {"rule": "C15a", "contains": "embedded-block"},
+  (CL, "            [np.exp(1j * phi) * c, -s],\n            [np.exp(1j * phi) * s, c],", "            [c, -np.exp(1j * phi) * s],\n            [s, np.exp(1j * phi) * c],"))
+V("c15-instructions-ps-on-second-mode", "C15", {"rule": "C15a", "contains": "embedded-block"},
+  (CL, "instructions.append(Phaseshifter(bs.params[1]).on_modes(bs.modes[0]))", "instructions.append(Phaseshifter(bs.params[1]).on_modes(bs.modes[1]))"))
+V("c15-instructions-bs-before-ps", "C15", {"rule": "C15a", "contains": "embedded-block"},
+  (CL, "        instructions.append(Phaseshifter(bs.params[1]).on_modes(bs.modes[0]))\n        instructions.append(Beamsplitter(bs.params[0], 0.0).on_modes(*bs.modes))", "        instructions.append(Beamsplitter(bs.params[0], 0.0).on_modes(*bs.modes))\n        instructions.append(Phaseshifter(bs.params[1]).on_modes(bs.modes[0]))"))
+V("c15-inverse-right-multiplies", "C15", {"rule": "C15a", "contains": "traversal"},
+  (CL, "        interferometer = beamsplitter_matrix @ interferometer", "        interferometer = interferometer @ beamsplitter_matrix"))
+V("c15-inverse-phase-sign", "C15", {"rule": "C15a", "contains": "phase-factor"},
+  (CL, "    interferometer = np.diag(np.exp(1j * phis)) @ interferometer", "    interferometer = np.diag(np.exp(-1j * phis)) @ interferometer"))
+V("c15-weights-reader-swapped", "C15", {"rule": "C15b", "contains": "weights-layout"},
+  (CL, "        beamsplitter.params = (weights[index], weights[index + 1])", "        beamsplitter.params = (weights[index + 1], weights[index])"))
+V("c15-weights-writer-fields-swapped", "C15", {"rule": "C15b", "contains": "weights-layout"},
+  (CL, "        weights = connector.assign(weights, index, beamsplitter.params[0])\n        index += 1\n        weights = connector.assign(weights, index, beamsplitter.params[1])\n        index += 1\n",
+   "        weights = connector.assign(weights, index, beamsplitter.params[1])\n        index += 1\n        weights = connector.assign(weights, index, beamsplitter.params[0])\n        index += 1\n"))
+V("c15-preserving-trig-rewrite", "C15", "silent",
+  (CL, "    c = np.cos(theta).astype(dtype)\n    s = np.sin(theta).astype(dtype)", "    c = np.sin(theta + np.pi / 2).astype(dtype)\n    s = np.cos(theta - np.pi / 2).astype(dtype)"))
